@@ -281,10 +281,16 @@ class FakeStdout:
         self.held = False
         self.pending = []  # (kind, payload, future)
         self.write_exc = None
+        self.fail_writes = {}  # index of the write call -> exception raised instead of writing (once)
+        self.n_writes = 0
 
     async def write(self, data):
         if self.write_exc is not None:
             raise self.write_exc
+        self.n_writes += 1
+        exc = self.fail_writes.pop(self.n_writes - 1, None)
+        if exc is not None:
+            raise exc
         if self.held:
             fut = self.loop.create_future()
             self.pending.append(("write", data, fut))
